@@ -156,6 +156,12 @@ wit = sym('wit', (T,), I, None)                        # index of a true entry o
 
 addaxis1 = sym('addaxis1', (T,), T, lambda a: a[:, None])       # a[:, np.newaxis]
 
+upd1 = sym('upd1', (T, I, R), T, lambda a, i, s: _np.concatenate([a[:int(i)], [s], a[int(i) + 1:]]))   # a with a[i] = s
+pd = sym('pd', (T,), B, lambda a: bool(_np.allclose(a, a.T) and _np.all(_np.linalg.eigvalsh((a + a.T) / 2) > 0)))
+nonzero = sym('nonzero', (T,), B, lambda v: bool(_np.any(v != 0)))
+
+setwhere_eq = sym('setwhere_eq', (T, R, R), T, lambda a, c, s: _np.where(a == c, s, a))      # a[a == c] = s
+
 # ---- spec functions (contract vocabulary)
 mdist = sym('mdist', (T, T, T), R,                         # d_L(x, y) = || L (x - y) ||_2
             lambda L, x, y: float(_np.sqrt(((L @ (x - y)) ** 2).sum())))
@@ -283,6 +289,18 @@ ax('at1_abs', 'lib', [a, i], at1(absT(a), i) == z3.If(at1(a, i) >= 0, at1(a, i),
    gen=dict(a='vec(n)', i='idx(n)'))
 ax('squeeze1_addaxis1', 'lib', [a], squeeze1(addaxis1(a)) == a, [z3.MultiPattern(squeeze1(addaxis1(a)))], ['squeeze1', 'addaxis1'], ieee=True,
    gen=dict(a='mat(n,d)'))
+ax('at1_upd1', 'lib', [a, i, j, s], at1(upd1(a, i, s), j) == z3.If(j == i, s, at1(a, j)), [z3.MultiPattern(at1(upd1(a, i, s), j))], ['at1', 'upd1'],
+   gen=dict(a='vec(n)', i='idx(n)', j='idx(n)', s='real'))
+ax('len_upd1', 'lib', [a, i, s], lenT(upd1(a, i, s)) == lenT(a), [z3.MultiPattern(lenT(upd1(a, i, s)))], ['lenT', 'upd1'], gen=dict(a='vec(n)', i='idx(n)', s='real'))
+ax('at1_zeros_', 'lib', [n, j], at1(zeros(n), j) == 0, [z3.MultiPattern(at1(zeros(n), j))], ['at1', 'zeros'])
+ax('at1_setwhere_eq', 'lib', [a, s, t, j], at1(setwhere_eq(a, s, t), j) == z3.If(at1(a, j) == s, t, at1(a, j)),
+   [z3.MultiPattern(at1(setwhere_eq(a, s, t), j))], ['at1', 'setwhere_eq'], gen=dict(a='vec(n)', s='real', t='real', j='idx(n)'))
+ax('pd_eye', 'math', [n], pd(eye(n)), [z3.MultiPattern(eye(n))], ['eye'], lean='posDef_one')
+# ---- math: positive definite matrices (Lean: lean/itml_rank_one.lean)
+ax('pd_quad_pos', 'math', [a, v], z3.Implies(z3.And(pd(a), nonzero(v)), dot(vm(v, a), v) > 0), [z3.MultiPattern(dot(vm(v, a), v))], ['dot', 'vm'],
+   lean='posDef_quad_pos', gen=dict(a='spd(d)', v='vec(d)'))
+ax('pd_rank_one', 'math', [a, v, s], z3.Implies(z3.And(pd(a), 1 + s * dot(vm(v, a), v) > 0), pd(add(a, outer(mv(a, v), smul(s, mv(a, v)))))),
+   [z3.MultiPattern(add(a, outer(mv(a, v), smul(s, mv(a, v)))))], ['add', 'outer', 'mv', 'smul'], lean='rank_one_posDef', gen=dict(a='spd(d)', v='vec(d)', s='real'))
 # ---- math: real sqrt
 ax('sqrt_nonneg', 'math', [s], sqrt(s) >= 0, [z3.MultiPattern(sqrt(s))], ['sqrt'], lean='Real.sqrt_nonneg', gen=dict(s='nnreal'))
 ax('sqrt_sq', 'math', [s], z3.Implies(s >= 0, sqrt(s) * sqrt(s) == s), [z3.MultiPattern(sqrt(s))], ['sqrt'],
